@@ -58,7 +58,7 @@ if confirmed:
     for f in (demo_diff, demo_sh):
         if os.path.exists(f):
             shutil.copy(f, f"{d}/" + os.path.basename(f).replace(n, "", 1))
-    m = {"property": prop, "breaks": meta.get("summary"), "needs": meta.get("needs"), "demo_cmd": meta.get("demo_cmd"),
+    m = {"property": meta.get("property", prop), "breaks": meta.get("summary"), "needs": meta.get("needs"), "demo_cmd": meta.get("demo_cmd"),
          "confirmed": {"existing_suite_with_patch": res["suite_with_patch"], "demo_on_clean_tree": t_clean, "demo_with_patch": t_mut,
                        "how": "tools/confirm_seeded.py in scratch worktree " + wt},
          "source": "independent sub-agent given only the property text and a scratch worktree"}
